@@ -779,7 +779,9 @@ class URL:
         if authority:
             _add('//')
             _add(authority)
-        elif (scheme and path[:2] != '//' and self.uses_netloc):
+        elif (scheme and path[:2] != '//' and self.uses_netloc
+              and path[:1] in ('', '/')):
+            # a rootless path would be re-read as the authority
             _add('//')
         if path:
             if scheme and authority and path[:1] != '/':
